@@ -518,6 +518,14 @@ class DAGRunConcurrentManager(DAGRunManagerLike):
                 await self.__unlock_itself(dag.dest)
                 return None
 
+            if not dag.is_oneof and not self._is_head_of_oneof(node_id):
+                # A dependency may have been executed as a part of a OneOf subgraph, where an error is kept as
+                # the node's result. Outside a OneOf subgraph it is an error of the DAG, not a value for the node.
+                error = self.__get_predecessor_error(dag, node_id)
+
+                if error is not None:
+                    await self.__raise_exc(error)
+
             if self._is_switch(node_id):
                 coro_to_run = self._run_switch(dag, node_id)
 
@@ -540,6 +548,19 @@ class DAGRunConcurrentManager(DAGRunManagerLike):
         )
 
         return self._node_storage.get_node_result(dag.dest, with_hidden=True)
+
+    def __get_predecessor_error(self, dag: DiGraph, node_id: NodeId) -> t.Optional[BaseException]:
+        """
+        Get an error that is stored as the result of one of the node's dependencies
+        """
+
+        for pred_node_id in self._get_predecessors(dag, node_id):
+            result = self._node_storage.get_node_result(pred_node_id)
+
+            if isinstance(result, BaseException):
+                return result
+
+        return None
 
     def __has_subgraph_error(self, dag: DiGraph) -> bool:
         """
